@@ -243,6 +243,47 @@ func enumerate(c *ev.Check, base cfg, L int, first int) {
 	lim.Sync(proxyv1alpha1.FlowControl{})
 }
 
+// bigBursts: burst far above the rate (1/s burst 100, 2/s burst 150, 5/s burst 1000) and rate far above the burst
+// do not occur among the step sequences' small numbers. A bucket as created (first sync), as re-created (schema removed
+// and added again) and as resized admits exactly `burst` back-to-back requests at a frozen clock - not more, not fewer.
+func bigBursts(c *ev.Check) {
+	for _, cf := range []cfg{{qps: 1, burst: 100}, {qps: 2, burst: 150}, {qps: 5, burst: 1000}, {qps: 100, burst: 100}} {
+		for _, how := range []string{"created", "re-created", "resized"} {
+			vtime.SetVirtual(t0)
+			ctx, cancel := context.WithCancel(context.Background())
+			lim := flowcontrols.NewUpstreamLimiter(ctx, "c1", "", nil)
+			switch how {
+			case "created":
+				lim.Sync(proxyv1alpha1.FlowControl{Schemas: []proxyv1alpha1.FlowControlSchema{tb("s", cf)}})
+			case "re-created":
+				lim.Sync(proxyv1alpha1.FlowControl{Schemas: []proxyv1alpha1.FlowControlSchema{tb("s", cfg{qps: 1, burst: 1})}})
+				lim.Sync(proxyv1alpha1.FlowControl{})
+				lim.Sync(proxyv1alpha1.FlowControl{Schemas: []proxyv1alpha1.FlowControlSchema{tb("s", cf)}})
+			case "resized":
+				lim.Sync(proxyv1alpha1.FlowControl{Schemas: []proxyv1alpha1.FlowControlSchema{tb("s", cfg{qps: 1, burst: 1})}})
+				lim.Sync(proxyv1alpha1.FlowControl{Schemas: []proxyv1alpha1.FlowControlSchema{tb("s", cf)}})
+			}
+			n := 0
+			for i := 0; i < int(cf.burst)+10; i++ {
+				if lim.GetOrDefault("s").TryAcquire() {
+					n++
+				}
+			}
+			c.Add("big_burst_cases", 1)
+			if n != int(cf.burst) {
+				key := "too-strict-big-burst"
+				if n > int(cf.burst) {
+					key = "over-rate-big-burst"
+				}
+				c.Violation(key, fmt.Sprintf("token bucket %d/s burst %d, %s: %d of %d back-to-back requests at a frozen clock were admitted, the configured burst is %d", cf.qps, cf.burst, how, n, int(cf.burst)+10, cf.burst), map[string]interface{}{"qps": cf.qps, "burst": cf.burst, "how": how})
+			}
+			lim.Sync(proxyv1alpha1.FlowControl{})
+			cancel()
+		}
+	}
+	vtime.SetReal()
+}
+
 // ------------------------------------------------------------------ engine A
 
 type obsA struct{ admitted, after, idle int }
@@ -377,6 +418,7 @@ func main() {
 			tasks = append(tasks, xa.Tasks(c, h)...)
 		}
 	}
+	tasks = append(tasks, ev.Task{Name: "big-bursts", Run: func() { bigBursts(c) }})
 	c.RunTasks(tasks)
 	c.Finish(map[string]interface{}{
 		"states":                        c.Counter("sequences") + c.Counter("choice_points"),
